@@ -5,7 +5,7 @@ open MtxVerif MtxVerif.C01
 op lines (space separated; byte strings hex, empty = `-`, empty list = `_`):
   reset  <users>                 new Manager{Method: internal, InternalUsers: users}      -> ok <n>
   reload <users>                 ReloadInternalUsers(users)                              -> ok <n>
-  auth <action> <path> <user> <pass> <token> <ip> <ask> <cv> <shaU> <shaP> <re> <a2>     -> ok <user> | err <ask>
+  auth <action> <path> <user> <pass> <token> <ip> <ask> <cv> <shaU> <shaP> <re> <a2> <usersDigest>  -> ok <user> | err <ask>
   contains <ip:mask> <ip>        conf.IPNetwork.Contains                                 -> 0 | 1
   ipnet <text> <cidr> <ip>       IPNetwork.UnmarshalJSON; cidr = ParseCIDR result `ip:mask`|`e`,
                                  ip = ParseIP result `hex`|`e`                           -> ok ip:mask | err
@@ -91,16 +91,23 @@ def oracleComplete (users : List User) (r : Req) (re : List (Bytes × Option Boo
         a2.any (fun e => e.1 == d.drop 7 && e.2.1 == g)
       else true)
 
+/-- FNV-1a (32 bit) of the encoded user list, as computed by the harness -/
+def digest (s : String) : Nat :=
+  s.toUTF8.toList.foldl (fun h b => ((h ^^^ b.toNat) * 16777619) % 4294967296) 2166136261
+
 structure D where
   users : List User := []
+  dig : Nat := digest "_"
 
 def step (d : D) (op impl : String) : D × DrvOut :=
   match words op with
   | ["reset", us] | ["reload", us] =>
     match parseUsers us with
-    | some us => ({ users := us }, { model := s!"ok {us.length}" })
+    | some usl => ({ users := usl, dig := digest us }, { model := s!"ok {usl.length}" })
     | none => (d, { model := "bad-op" })
-  | ["auth", action, path, user, pass, token, ip, ask, cv, shaU, shaP, re, a2] =>
+  | ["auth", action, path, user, pass, token, ip, ask, cv, shaU, shaP, re, a2, dg] =>
+    -- oracle columns computed for another user list (only in shrunk replays): no prediction
+    if dg.toNat? ≠ some d.dig then (d, { model := "-" }) else
     let parsed := do
       let r : Req := ⟨← hx action, ← hx path, ← hx user, ← hx pass, ← hx token, ← hx ip,
         ← parseCV cv, ← parseBit ask⟩
